@@ -696,7 +696,8 @@ class Spectrum:
             self.wave = np.delete(self.wave, indx)
             self.value = np.delete(self.value, indx)
 
-        if max_wave < self.wave[-1]:
+        # (nothing is left to crop when the lower bound lies above all samples)
+        if self.wave.size > 0 and max_wave < self.wave[-1]:
             indx = np.where(max_wave < self.wave)
             self.wave = np.delete(self.wave, indx)
             self.value = np.delete(self.value, indx)
